@@ -262,7 +262,7 @@ def run(facts, tier):
                     arm_calls = []
                     for i_, kind_ in candidates(mp["arms"], C(f"jaq_fmts::Format::{name}")):
                         arm_calls += callees_inlined(facts, [mp["arms"][i_]["body"], mp["arms"][i_].get("guard")])
-                    utf8_readers = sorted({c_ for c_ in arm_calls if re.search(r"read_to_string$|str::converts::from_utf8$|String::from_utf8$|::lines$", c_)})
+                    utf8_readers = sorted({c_ for c_ in arm_calls if re.search(r"read_to_string$|str::converts::from_utf8$|String::from_utf8$|^std::io::BufRead::lines$", c_)})
                     if name not in validated and utf8_readers:
                         t5.violate(f"reader/{name}", f"format {name} (parsed from the bytes) is read through {utf8_readers} in `{fn['def'].split('::')[-1]}`: input that is not valid UTF-8 is rejected on this path only (standard input and file arguments disagree)", where=fn["sp"])
                     if uses != (name in validated):
